@@ -40,10 +40,10 @@ CONSTANT FullChainUpTo      \* the header chain of A is written out in every ste
 ProjA == [hhead |-> a.hhead, sync |-> SyncHead(a), insync |-> a.insync, stored |-> Stored(a),
           bhead |-> b.hhead, due |-> Due, phi |-> Phi,
           chain |-> IF N <= FullChainUpTo \/ Quiescent THEN ChainOf(a.hhead) ELSE <<>>]
-StepRec == [k |-> last.k, x |-> last.x, y |-> last.y, res |-> last.res,
+StepRec == [k |-> last.k, x |-> last.x, y |-> last.y, z |-> IF last.k = "Byz" THEN last.z ELSE 0, res |-> last.res,
             loc |-> IF last.k = "Build" THEN net.loc ELSE <<>>,
             heights |-> IF last.k = "Build" THEN LocatorHeights(Height(a.sync)) ELSE <<>>,
-            batch |-> IF last.k = "Locate" THEN net.batch ELSE IF last.k = "Byz" THEN LastK(last.x, last.y) ELSE <<>>,
+            batch |-> IF last.k = "Locate" THEN net.batch ELSE IF last.k = "Byz" THEN Gapped(last.x, last.y, last.z) ELSE <<>>,
             nbr |-> Len(br),
             proj |-> ProjA]
 
@@ -57,9 +57,17 @@ cBuildLocator == BuildLocator /\ UNCHANGED <<hist, fin>>
 cLocateHeaders == LocateHeaders /\ UNCHANGED <<hist, fin>>
 cReceiveHeaders == ReceiveHeaders /\ UNCHANGED <<hist, fin>>
 cResetSync == ResetSync /\ UNCHANGED <<hist, fin>>
-cByz == (\E x \in Ids, k \in 1..MaxHeaders : Byz(x, k)) /\ UNCHANGED <<hist, fin>>
+cByz == (\E x \in Ids, k \in 1..MaxHeaders, g \in 0..MaxHeaders : Byz(x, k, g)) /\ UNCHANGED <<hist, fin>>
 MCNext == cMintA \/ cMintB \/ cReorg \/ cBuildLocator \/ cLocateHeaders \/ cReceiveHeaders \/ cResetSync \/ cByz
 MCSpec == MCInit /\ [][MCNext]_mcvars
+\* the same with the fork depths drawn from Lens instead of every height (configurations with the constants of
+\* the code, where chains are hundreds of headers long)
+cMintBLens == (\E dep \in Lens, lb \in Lens, db \in Diffs : dep <= a0 /\ MintB(a0 - dep, lb, db)) /\ UNCHANGED <<hist, fin>>
+cReorgLens == (\E dep \in Lens, len \in Lens, d \in Diffs :
+                 \/ dep <= Height(b.hhead) /\ Reorg(AtHeight(b.hhead, Height(b.hhead) - dep), len, d)
+                 \/ dep = 0 /\ Reorg(a.hhead, len, d)) /\ UNCHANGED <<hist, fin>>
+MCNextLens == cMintA \/ cMintBLens \/ cReorgLens \/ cBuildLocator \/ cLocateHeaders \/ cReceiveHeaders \/ cResetSync
+MCSpecLens == MCInit /\ [][MCNextLens]_mcvars
 MCFairSpec == MCSpec /\ WF_mcvars(MCNext)
 
 \* --- simulation: one random successor per step ---
@@ -87,7 +95,8 @@ SimByz ==
   \E pool \in {IF r <= 3 /\ (b.hdrs \ a.hdrs) # {} THEN b.hdrs \ a.hdrs ELSE Ids \ {0}} :
      pool # {} /\
      \E x \in {RandomElement(pool)} :
-     \E k \in {RandomElement(1..Min(Min(MaxHeaders, Height(x)), 6))} : Byz(x, k)
+     \E k \in {RandomElement(1..Min(Min(MaxHeaders, Height(x)), 6))} :
+     \E g \in {IF k >= 3 /\ RandomElement(1..2) = 1 THEN RandomElement(2..(k - 1)) ELSE 0} : Byz(x, k, g)
 SimDisturb == \E r \in {RandomElement(1..4)} :
                  IF r <= 2 THEN SimReorg ELSE IF r = 3 THEN ResetSync ELSE SimByz
 Finish == /\ Quiescent /\ ~fin
